@@ -21,7 +21,7 @@ import types
 
 REPO = os.environ.get("YNCA_REPO", "/repo")
 HERE = os.path.dirname(os.path.abspath(__file__))
-GEN_DIR = os.path.join(os.path.dirname(HERE), "lean", "YncaVerif", "Gen")
+GEN_DIR = os.path.join(os.environ.get("VERIF_LEAN") or os.path.join(os.path.dirname(HERE), "lean"), "YncaVerif", "Gen")
 
 
 # ----------------------------------------------------------------------------- Lean printing
